@@ -47,6 +47,11 @@ def digest (out : String) : List String :=
 
 def handleL4Core (strict : Bool) (head srcE inE : String) (expects : List String) (ans : String) : Verdict :=
     match words head, pctDecode srcE.trimAscii.toString, pctDecode inE.trimAscii.toString with
+    | ["cli", _], none, some _ =>
+      -- the file is not valid UTF-8: bin.rs reports the read error and exits with status 1, nothing runs
+      let realOut := (pctDecode (fieldOf ans "out")).getD ""
+      let ok := fieldOf ans "exit" == "1" && realOut.startsWith "Error Reading file" && fieldOf ans "trace" == "-"
+      { model := ans, specOk := ok, spec := "a file that is not UTF-8 is refused with a read-error message, exit status 1, nothing executed", nontrivial := true }
     | ["cli", flag], some src, some inp =>
       if ans.startsWith "NONDET" then
         { model := ans, specOk := false, spec := "identical output on repeated runs (C19)", nontrivial := true } else
